@@ -143,6 +143,9 @@ def handle0 : Handler := fun input impl =>
   | "race" =>
     let o : ConcObs := { fatal := getS okv "fatal" "-", detector := getS okv "detector", races := getS okv "races" "-" }
     let served := if servedExpected (getS kv "fail" "none") ((getN? kv "failat").getD 0) then "yes" else "no"
+    -- round 6: a whole pool that did not finish within the driver's time limit on an overloaded machine (thousands of shots
+    -- under the race detector at load > 150) and showed neither a race nor a fatal error: inconclusive, not a disagreement
+    if getS okv "run" == "timeout" && o.fatal == "-" && o.races == "-" then ("-", "skip:inconclusive-timeout") else
     (s!"run=- served={served} samples=yes fatal=- detector={o.detector} races=-", judgeConc tbl [] o)
   | "hammer" =>
     let o : ConcObs := { fatal := getS okv "fatal" "-", detector := getS okv "detector", races := getS okv "races" "-" }
